@@ -6,6 +6,7 @@ from vlib.layout import Layout, RAW_KEYWORDS
 from checks import c02_ast
 
 ID = 'C11'
+CONTRACTS = True     # icontract recording contracts ride along (vlib/contracts.py)
 LEVEL = 'exploration'
 RULE = ('corpus = well-formed texts of the C02 generator (incl. multi-line MACRO / EXPORTS / CHOICE '
         'blocks, CR / CRLF line ends, several modules per file); per text: every proper prefix at '
@@ -197,7 +198,8 @@ def run_case(idx, rng, tier, res):
         k = rng.choice(positions)
         kind = rng.choice(['illegal', 'forbidden', 'bignum', 'dash', 'bracket'])
         bad = {'illegal': rng.choice(ILLEGAL), 'forbidden': rng.choice(FORBIDDEN),
-               'bignum': rng.choice(['18446744073709551616', '-18446744073709551616', '99999999999999999999999']),
+               'bignum': rng.choice(['18446744073709551616', '-18446744073709551616', '99999999999999999999999',
+                                     '7' * 4400, '-' + '1' * 5000]),
                'dash': rng.choice(['foo-', 'Bar-', 'x9-']), 'bracket': ']'}[kind]
         a = spans[k][0]
         sepl = rng.choice([' ', '\n', '\r\n', '\t', ' \r'])
